@@ -36,11 +36,20 @@ structure D where
 def mkDict (cs ps a o d : String) : Option Dict := do
   some { consts := (← parseStore cs), pts := (← parseStore ps), start := (← parseOpt a), stop := (← parseOpt o), dt := (← parseOpt d) }
 
+def parseSets : List String → Option (List (Nat × Dict))
+  | [] => some []
+  | i :: cs :: ps :: a :: o :: d :: rest => do
+      let i ← i.toNat?
+      let dd ← mkDict cs ps a o d
+      let tl ← parseSets rest
+      some ((i, dd) :: tl)
+  | _ => none
+
 def stepLine (x : D) (line : String) : D × String :=
   let ap (op : Op) : D × String := ({ x with st := step x.c x.b x.st op }, "ok")
   match line.trimAscii.toString.splitOn " " with
-  | ["cfg", p, e, m, r] =>
-      let c : Cfg := ⟨p == "1", e == "1", m == "1", r == "1"⟩
+  | ["cfg", p, e, m, r, sa] =>
+      let c : Cfg := ⟨p == "1", e == "1", m == "1", r == "1", sa == "1"⟩
       ({ x with c := c }, "ok")
   | ["new", bp, a, o, d, el] =>
       match parseStore bp, a.toNat?, o.toNat?, d.toNat?, el.toNat? with
@@ -70,6 +79,12 @@ def stepLine (x : D) (line : String) : D × String :=
       match i.toNat?, mkDict cs ps "-" "-" "-", t.toNat? with
       | some i, some dd, some t => ap (.step i dd t)
       | _, _, _ => (x, "bad-op")
+  | "session" :: ns :: slots :: rest =>
+      -- `session <names per manager> <slot,slot,…|-> {<slot> <consts> <pts> <start> <stop> <dt>}*`: one begin_session call, lowered as the Cfg says
+      match ns.toNat?, (if slots == "-" then some [] else (slots.splitOn ",").mapM (·.toNat?)), parseSets rest with
+      | some ns, some sl, some sets =>
+          ({ x with st := (lower x.c (.session ns sl sets)).foldl (step x.c x.b) x.st }, "ok")
+      | _, _, _ => (x, "bad-op")
   | ["evalbase"] => ap .evalBase
   | ["setup", i] => match i.toNat? with
       | some i => ap (.setup i)
@@ -96,4 +111,4 @@ partial def loop (h : IO.FS.Stream) (x : D) : IO Unit := do
 
 def main : IO Unit := do
   let b : Base := { pts := [], rs := { start := 0, stop := 0, dt := 0 }, elems := 0 }
-  loop (← IO.getStdin) { c := { cloneOwnsPoints := true, cloneOwnsElements := false, mergeOwnsDict := true, reregFreshClone := true }, b := b, st := State.init b }
+  loop (← IO.getStdin) { c := { cloneOwnsPoints := true, cloneOwnsElements := false, mergeOwnsDict := true, reregFreshClone := true, sessionAddressesPair := true }, b := b, st := State.init b }
